@@ -77,6 +77,21 @@ func priorDecode(format string, stream []byte, dictCap int, kind string, at int)
 	}
 }
 
+// priorWrite uses a writer of the same configuration in the same process
+// before the one under judgement: it takes n bytes of text and is closed (odd
+// n) or abandoned (even n). A later instance must not be influenced by it.
+func priorWrite(open func(io.Writer) (io.WriteCloser, error), n int) {
+	defer func() { recover() }()
+	w, err := open(io.Discard)
+	if err != nil {
+		return
+	}
+	w.Write(gen.Recipe{{Kind: "text", K: 7, Len: n, Seed: uint64(n)}}.Expand())
+	if n%2 == 1 {
+		w.Close()
+	}
+}
+
 // layoutOf parses a valid stream of any of the three formats into a layout
 // whose spans cover it completely.
 func layoutOf(format string, b *gen.Built) (*ref.Layout, error) {
